@@ -101,6 +101,10 @@ Step ==
           \* the baseline, neither a probe): more latency never means more limit
           /\ UNCHANGED <<ok, cfg, st>>
           /\ (~e.skip /\ e.esthi > e.estlo) => Rej(e, "monotone", "the higher RTT produced the higher estimate", [estlo |-> e.estlo, esthi |-> e.esthi])
+     ELSE IF e.ev = "Concurrent"
+     THEN \* C16 with two samples racing: once both have returned, the last value delivered equals the estimate
+          /\ UNCHANGED <<ok, cfg, st>>
+          /\ e.last # e.est => Rej(e, "notify", "two concurrent samples: the last value delivered to the listener differs from EstimatedLimit", [est |-> e.est, last |-> e.last])
      ELSE IF ~ok THEN UNCHANGED <<ok, cfg, st>>
      ELSE IF e.ev = "Register" THEN st' = [st EXCEPT !.listeners = e.listeners] /\ UNCHANGED <<ok, cfg>>
      ELSE IF e.ev = "RunEnd"
